@@ -236,6 +236,9 @@ def oracle_c08(case, lo):
             return fails
     if lib_s(lo, "additive") == "fails":
         fails.append("%s commit(a*p+b*q) != a*commit(p)+b*commit(q) (%s)" % (sch, case.meta["shapes"][0]))
+    if lib_s(lo, "additive_lib") == "fails":
+        fails.append("%s: a*commit(p)+b*commit(q) formed with the library's own `+= (scalar, &commitment)` is not the group element a*commit(p)+b*commit(q) (%s)"
+                     % (sch, case.meta["shapes"][0]))
     if lib_s(lo, "zero_is_identity") == "no":
         fails.append("%s commitment of the zero polynomial is not the identity" % sch)
     if lib_s(lo, "repr_invariant") == "fails":
